@@ -101,7 +101,8 @@ func genScenario(r *hx.Rand, big bool) scenario {
 }
 
 type outcome struct {
-	unordered bool
+	readerDied bool
+	unordered  bool
 	results []string // per caller: ok:<hex of reply> | err:<class> | stuck
 	model   []string // lines for the driver
 	note    string
@@ -152,6 +153,7 @@ func runScenario(sc scenario, rep *hx.Report) outcome {
 	idOf := map[int]uint64{}   // caller -> id
 	callerOf := map[uint64]int{}
 	firstGood := map[int]string{} // caller -> first well-formed matching reply body (oracle)
+	answeredBeforeFatal := map[int]bool{}
 	results := []string{}
 	var mu sync.Mutex
 	var wg sync.WaitGroup
@@ -243,6 +245,7 @@ func runScenario(sc scenario, rep *hx.Report) outcome {
 					frame = snix.ReplyFrame(id, helloTyp, 0, snix.StrBody(good))
 					if _, seen := firstGood[c]; !seen {
 						firstGood[c] = good
+						answeredBeforeFatal[c] = true
 					}
 				case "dup":
 					frame = snix.ReplyFrame(id, helloTyp, 0, snix.StrBody("DUP"+good))
@@ -305,6 +308,7 @@ func runScenario(sc scenario, rep *hx.Report) outcome {
 				case <-markerSeen:
 				case <-time.After(10 * time.Second):
 					out.skipped, out.note = true, "marker frame not consumed within 10 s"
+					out.readerDied = true
 					return out
 				}
 			}
@@ -327,6 +331,9 @@ func runScenario(sc scenario, rep *hx.Report) outcome {
 
 	// direct oracle
 	for c, r := range out.results {
+		if want, answered := firstGood[c]; answered && !strings.HasPrefix(want, "\x00") && !sendfail && answeredBeforeFatal[c] && !strings.HasPrefix(r, "ok:") && r != "stuck" {
+			rep.Fail("answered-call-not-completed", fmt.Sprintf("caller %d got %s although the peer sent a well-formed reply %q for its id and type before any fatal frame", c, r, want), sc.lines)
+		}
 		switch {
 		case r == "stuck":
 			rep.Fail("caller-never-returned", fmt.Sprintf("caller %d did not return within 20 s after the connection was cut", c), sc.lines)
@@ -395,8 +402,30 @@ func main() {
 	type span struct{ from, to int }
 	var spans []span
 	var outs []outcome
+	t0 := time.Now()
+	budget := 2 * time.Minute
+	if f.Thorough() {
+		budget = 15 * time.Minute
+	}
+	deadReaders := 0
 	for _, sc := range scs {
+		if time.Since(t0) > budget {
+			rep.Note("time budget reached after %d scenarios", rep.Evaluations)
+			break
+		}
+		if len(rep.OracleFailures) >= 6 || deadReaders >= 3 {
+			rep.Note("stopping early: violations already recorded")
+			break
+		}
 		o := runScenario(sc, rep)
+		if o.readerDied {
+			// the reader stopped consuming frames although no fatal frame was sent and the connection is up
+			o2 := runScenario(sc, rep)
+			if o2.readerDied {
+				deadReaders++
+				rep.Fail("reader-died-on-benign-frame", "after this script (no frame with an error code, connection alive) the reader no longer consumes frames: a marker frame was not fetched within 10 s, twice", sc.lines)
+			}
+		}
 		if o.skipped {
 			rep.Note("scenario skipped: %s", o.note)
 			rep.Count("skipped")
